@@ -61,8 +61,24 @@ def concretize(ex, v, model, heap, depth=0):
     if isinstance(v, VTuple):
         return {'$tuple': [concretize(ex, x, model, heap, depth + 1) for x in v.items]}
     if isinstance(v, VOpaque):
-        from .models import absval
-        return {'$ref': str(ev(v.t)), 'cls': v.cls, 'absval': str(ev(absval(v.t)))}
+        from .models import absval, field_fn
+        from .values import flat_kind
+        d = {'$ref': str(ev(v.t)), 'cls': v.cls, 'absval': str(ev(absval(v.t)))}
+        spec = ex.class_specs.get(v.cls) if v.cls else None
+        if spec and depth < 3:
+            fields = {}
+            for attr, srt in spec.items():
+                if attr.startswith('__'):
+                    continue
+                k = flat_kind(srt)
+                if k is None:
+                    continue
+                try:
+                    fields[attr] = concretize(ex, ex.unflat(field_fn(v.cls, attr, k)(v.t), k), model, heap, depth + 1)
+                except Exception:
+                    pass
+            d['fields'] = fields
+        return d
     if isinstance(v, VClass):
         return {'$class': v.name}
     if isinstance(v, VPtr):
@@ -393,13 +409,16 @@ def main(argv=None):
             rp['source_changed_since_baseline'] = changed
             with open(rpath, 'w') as fp:
                 json.dump(rp, fp, indent=1, default=str)
+            internal = o['kind'] in ('inv-init', 'inv-pres', 'pre@call', 'variant')
             if confirmed:
                 violations.append((o['name'], rpath, ''))
-            elif o['kind'] in ('inv-init', 'inv-pres', 'pre@call', 'variant') and not inbase:
+            elif internal and not inbase:
                 # an internal proof obligation (my invariant / callee precondition) that never
                 # held and has no replayed witness: the proof is undecided, not the code wrong
                 undecided.append(o['name'] + ' (internal proof obligation refuted, no replayed input)')
-            elif confirmed is False and not o.get('havoc_on_path', True):
+            elif internal and inbase and changed:
+                violations.append((o['name'], rpath, 'no-failing-input-found'))
+            elif confirmed is False and not o.get('havoc_on_path', True) and not internal:
                 errors.append(f'refuted obligation {o["name"]} does not replay on a havoc-free path: encoding error')
             elif inbase and changed:
                 violations.append((o['name'], rpath, 'no-failing-input-found'))
